@@ -138,6 +138,11 @@ class BaseStandaloneNetworkServerImpl(AbstractNetworkServer, Generic[_T_AsyncSer
 
                 if timeout is not None:
                     timeout = elapsed.recompute_timeout(timeout)
+            else:
+                # Not running. (The lock is held during the whole setup and teardown of serve_forever().)
+                # Do not wait outside of the lock: a serve_forever() starting in the meantime would block this call
+                # until somebody else stops that server.
+                return
         self.__is_shutdown.wait(timeout)
 
     def serve_forever(
